@@ -9,40 +9,40 @@ C={
         'Every generated message of all 27 kinds is encoded/decoded by the real codec and compared byte-for-byte and value-for-value with an independent reference codec (also after earlier outputs were kept across later calls and after the input buffer was overwritten); sampled (boundary-dense), not exhaustive.',
         'trusted: harness/refcodec as transcription of intro(5)/stat(5); only representable values generated'),
  'C02':('exploration','wire-capture monitor with reference-frame oracle',
-        'WriteFcall is run on a capturing conn for (message, msize, ctx) triples dense around the message\'s own frame size; the captured bytes must be exactly the expected reference frame or nothing plus the exact overflow.',
+        'WriteFcall is run on a capturing conn for (message, msize, ctx) triples dense around the message\'s own frame size; the captured bytes must be exactly the expected reference frame or nothing plus the exact overflow; write sequences with and without context deadlines run on a connection that honours write deadlines against a virtual clock.',
         'trusted: refcodec; capture conn never fails writes; sampled'),
  'C03':('exploration','scripted-stream monitor with per-frame isolated expectation + crash observation',
         'Streams of normal and hostile frames are read through the real channel under every chunking; each result is compared with the expectation derived from that frame alone and with the same frame on a fresh channel, and a delivered message must stay unchanged when the next frame is read; panics are observed as child crashes.',
         'trusted: refcodec; a length prefix of 0-3 is taken as a frame consisting of the prefix alone; sampled'),
  'C04':('exploration','structure-aware input mutation under crash, allocation and stability monitors',
-        'Mutated encodings (every length field x hostile values, truncations, overwrites, random) are decoded in child processes with a panic monitor, an exact TotalAlloc meter against 256KiB+64B/byte and the decode-encode-decode stability equation; DecodeDir size field swept exhaustively.',
+        'Mutated encodings (every length field x hostile values, truncations, overwrites, random) are decoded in child processes with a panic monitor, an exact TotalAlloc meter against 256KiB+64B/byte and the decode-encode-decode stability equation; DecodeDir size field swept exhaustively; long strings of invalid UTF-8, stats as large as their size field allows, and a long history of distinct owner names per process.',
         'trusted: allocation bound constants are an instantiation of "small constant plus linear"; sampled except the 16-bit size sweep'),
  'C05':('exploration','online exactly-once / tag-distinctness monitor at a scripted fake server, race detector',
-        'A real CSession client runs against a scripted raw-wire server: concurrent callers with unique ids, replies in PRNG permutations, Rerror replies, abandoned calls answered late, tag-wrap runs of 70k-200k calls with long-outstanding (partly abandoned) calls pinning tags, a depletion run with all 65535 tags outstanding, and calls issued with an already ended context while others are pending; the monitor checks tag distinctness among requests still awaiting a reply, NOTAG never used, every call returning its own id, completion at quiescence, plus race reports in the transport.',
+        'A real CSession client runs against a scripted raw-wire server: concurrent callers with unique ids, replies in PRNG permutations, Rerror replies, abandoned calls answered late, tag-wrap runs of 70k-200k calls with long-outstanding (partly abandoned) calls pinning tags, a depletion run with all 65535 tags outstanding, idle wraps (ordinary replies / error replies only) with read-side hiccups while tag 0 is outstanding, and calls issued with an already ended context while others are pending; the monitor checks tag distinctness among requests still awaiting a reply, NOTAG never used, every call returning its own id, completion at quiescence, plus race reports in the transport.',
         'trusted: fake server as judge of which tags await a reply; unique ids in requests and replies; refcodec'),
  'C06':('exploration','scripted-handler conservation monitor over the wire log (exactly-once per (tag, epoch)), race detector',
-        'Scripts of requests, duplicates, bursts and PRNG-ordered completions against the real ServeConn with a gate-controlled Handler; after each stimulus the harness waits for quiescence and checks handler invocations and replies against a conservation monitor: one dispatch with the message sent, one reply with own tag and exactly the handler result or error text (results also of exactly the largest size that fits msize), duplicates refused without dispatch.',
+        'Scripts of requests, duplicates, bursts and PRNG-ordered completions against the real ServeConn with a gate-controlled Handler; after each stimulus the harness waits for quiescence and checks handler invocations and replies against a conservation monitor: one dispatch with the message sent, one reply with own tag and exactly the handler result or error text (results also of exactly the largest size that fits msize), duplicates refused without dispatch (also while the server writer is busy); messages held by parked handlers are re-compared when released; requests of exactly msize.',
         'trusted: refcodec for wire parsing; quiescence from goroutine states; replies kept within msize'),
  'C07':('exploration','gate-script ordering monitor over the wire log, repeated per random server-side choice, race detector',
-        'Eleven flush scenarios (cancel honoured/ignored, late completion before/after tag reuse, completion racing the flush in both orders, unknown/own/double flush, immediate reuse, request+flush arriving at a stalled server, flush processed while the writer is busy followed by hang-up or drain) over eleven request kinds, repeated many times; the monitor checks ctx cancellation, exactly one reply per Tflush, silence of the flushed request after the flush reply and that a reused tag is answered with the new request own uid.',
+        'Eleven flush scenarios (cancel honoured/ignored, late completion before/after tag reuse, completion racing the flush in both orders, unknown/own/double flush, immediate reuse, request+flush arriving at a stalled server, flush processed while the writer is busy followed by hang-up or drain) over eleven request kinds, with up to 133 requests outstanding and with the tag reused after 1..65536 other requests, repeated many times; the monitor checks ctx cancellation, exactly one reply per Tflush, silence of the flushed request after the flush reply and that a reused tag is answered with the new request own uid.',
         'trusted: unique ids in results identify crossed replies; the internal completed-vs-cancelled choice of the server is covered by repetition only'),
  'C08':('exploration','lock-step reference-model monitor (fid-table model) with FS-call log, fid-table hook and quiescence hang detector',
-        'Random and systematically enumerated call sequences run on the real SFileSys over an instrumented file system; after every call the outcome, the exact FS calls and the whole fid table (via the verif hook) are compared with a sequential reference model; unreturned calls at quiescence are hangs.',
+        'Random and systematically enumerated call sequences run on the real SFileSys over an instrumented file system; after every call the outcome, the exact FS calls and the whole fid table (via the verif hook) are compared with a sequential reference model; unreturned calls at quiescence are hangs; a family of queued pairs (a request arriving on a fid while another is still inside the file system) runs under the release/overlap monitors.',
         'trusted: harness/fsx model (DESIGN App. A) incl. its documented relations; instrumented FS deterministic; hook p9p.VerifFidTable'),
  'C09':('exploration','recording-session differential monitor (arguments and results both ways) + concurrent unique-id cells under quiescence hang detection and the race detector',
-        'A recording Session behind the real ServeConn/SSession and the real CSession in front: every method with boundary arguments and scripted results/errors is compared argument-by-argument and result-by-result modulo the documented wire limits; concurrent cells (2-64 callers x payload x connection buffering) check own-result delivery and completion, with the known flow-control deadlock recognised by its five-goroutine signature only.',
+        'A recording Session behind the real ServeConn/SSession and the real CSession in front: every method with boundary arguments and scripted results/errors is compared argument-by-argument and result-by-result modulo the documented wire limits; concurrent cells (2-64 callers x payload x connection buffering) check own-result delivery and completion, plus deadline-then-plain calls on deadline-honouring connections, fragmenting connections, 130-520 calls blocked inside S, and a tag wrap preceded by refused calls; the known flow-control deadlock is recognised by its five-goroutine signature only.',
         'trusted: ename rule for errors; documented clipping rules; KNOWN_FINDINGS entry C09:flow-control-deadlock (any other hang or any crossed/lost result is a violation)'),
  'C10':('exploration','frame-length monitor on the parsed wire in both directions + min-rule oracle over boundary-dense proposals/answers',
-        'Raw clients propose every boundary msize/version to the real ServeConn and a fake server answers every boundary msize/version to the real CSession; after the handshake a battery of maximal reads/writes, exact-fit frames, long strings and oversize handler results runs while every frame on the wire is measured against the agreed minimum; refusals must not dispatch anything.',
+        'Raw clients propose every boundary msize/version to the real ServeConn and a fake server answers every boundary msize/version to the real CSession; after the handshake a battery of maximal reads/writes, exact-fit frames (also pipelined right behind the Tversion), long strings and oversize handler results (Rstat, Rread) runs while every frame on the wire is measured against the agreed minimum; refusals must not dispatch anything.',
         'trusted: refcodec wire parsing; server maximum = DefaultMSize'),
  'C11':('fault_enumeration','fault enumeration over a recorded run (inbound byte offsets, reply writes, reply counts x in-flight behaviours) with quiescence-based return detection, Stop counter, fid-table hook and release monitor, race detector',
-        'Scripts with a completed prologue and an in-flight set parked inside FS calls are run against the real ServeConn+SSession+SFileSys on a fault-injecting connection; one fault per run at every enumerated index (read error/EOF at byte k, failing reply write j also with the write parked and work queued behind it, ctx cancel after e replies, ctx cancel while reply write j is stalled; read errors as plain and as permanent net.Error, with a read-count livelock detector; one script with outstanding auth fids) x handlers that fail on cancel / succeed after cancel / already finished. Checks: in-flight ctxs cancelled, ServeConn returned at quiescence, Stop exactly once, fid table empty, every handed-out entry released exactly once, no crash.',
+        'Scripts with a completed prologue and an in-flight set parked inside FS calls are run against the real ServeConn+SSession+SFileSys on a fault-injecting connection; one fault per run at every enumerated index (read error/EOF at byte k, failing reply write j also with the write parked and work queued behind it, ctx cancel after e replies, ctx cancel while reply write j is stalled; read errors as plain and as permanent net.Error, with a read-count livelock detector; one script with outstanding auth fids, one with a flushed-then-reused tag and a late completion, one with a clunk pipelined behind the walk that reserves its fid; a failed reply write must end serving) x handlers that fail on cancel / succeed after cancel / already finished. Checks: in-flight ctxs cancelled, ServeConn returned at quiescence, Stop exactly once, fid table empty, every handed-out entry released exactly once, no crash.',
         'trusted: handlers wake on ctx.Done (proviso); virtual deadlines; exhaustive over fault indices of the tier scripts, server-internal goroutine schedule sampled'),
  'C12':('fault_enumeration','fault enumeration over a recorded run (every reply byte offset, every write, every reply count, every single call) + hostile-frame sampling, under crash, quiescence-hang and result monitors, race detector',
-        'A real CSession client with 1-16 pending calls runs against a scripted peer on a fault-injecting connection: the inbound stream is failed at every byte offset (error/EOF), the peer closes after every reply count, every client write is failed, the session context is cancelled at every point, each call is cancelled alone; read errors come as plain errors and as permanent net.Errors (a spinning client is detected by counting its reads after the failure); calls that fail locally and a call made after the deadline of an earlier call has passed on a deadline-honouring connection (virtual clock) must leave the others alone; hostile frames (unknown/repeated/NOTAG tags, wrong types, abnormal frames, garbage) are sampled. Child-process crash observation, quiescence-based hang detection and per-call result checks decide.',
+        'A real CSession client with 1-16 pending calls runs against a scripted peer on a fault-injecting connection: the inbound stream is failed at every byte offset (error/EOF), the peer closes after every reply count, every client write is failed, the session context is cancelled at every point, each call is cancelled alone; read errors come as plain errors and as permanent net.Errors (a spinning client is detected by counting its reads after the failure); calls that fail locally and a call made after the deadline of an earlier call has passed on a deadline-honouring connection (virtual clock) must leave the others alone; hostile frames (unknown/repeated/NOTAG tags, wrong types once or repeatedly, abnormal frames, malformed directory data, hostile handshake answers, garbage) are sampled; one long history (cancelled call, 66000 calls, late reply). Child-process crash observation, quiescence-based hang detection and per-call result checks decide.',
         'trusted: virtual deadlines (no timer-based verdicts); exhaustive over fault indices of the generated scenarios, hostile frames sampled'),
  'C13':('fault_enumeration','fault enumeration over FS-call indices and stop points with an online release monitor',
-        'For each generated sequence every FS-call index is failed in two flavours, pairs are sampled and Stop is issued after every prefix, also through the shutdown of ServeConn itself with handlers still inside the file system; handle-level monitors (unique ids, released/consumed state) detect double release, use after release and leaks; the model says which handle each release must hit.',
+        'For each generated sequence every FS-call index is failed in two flavours, pairs are sampled and Stop is issued after every prefix, also through the shutdown of ServeConn itself with handlers still inside the file system; queued pairs behind releases and behind mere uses; Tauth on a bound fid; simultaneous binds of one fid; handle-level monitors (unique ids, released/consumed state) detect double release, use after release and leaks; the model says which handle each release must hit.',
         'trusted: fsx handles and model; exhaustive over (sequence, single fault, stop prefix), sampled over sequences and pairs'),
  'C18':('exploration','reference-model monitor (tree of byte arrays) over multi-session sequences, refcount validator hook, porcupine register checking, crash observation and the Go race detector',
         'One to three sessions on a fresh ramfs instance run interleaved operation sequences with extreme offsets; every result is compared with a reference tree model; after all fids are clunked the refcount validator (hook) must be clean and a fresh attach must see the model tree. Concurrent rounds with 2-8 sessions check per-file read/write histories with porcupine (register model), the validator, crashes and race reports in ramfs/.',
